@@ -301,6 +301,28 @@ func propC18(c c18Case) *Outcome {
 			cl.Copy(&c18NonProto{}, bad)
 			cl.Clone(bad) // the same adapter instance has cloned a dynamic message of another type before
 		}()
+		// whatever those failures used internally (scratch buffers, pooled objects) is clean again: the very next
+		// operations, on the same goroutine, are ordinary ones
+		for i := 0; i < 3; i++ {
+			good := c18Val{Type: "msg", Dyn: true, Bytes: mustMarshal(&pb.Message{Count: int32(i + 1), Payload: []byte("after-a-failed-copy")})}.build()
+			want, _ := c18Wire(good)
+			var got interface{}
+			var err error
+			func() {
+				defer func() {
+					if r := recover(); r != nil {
+						err = fmt.Errorf("panic: %v", r)
+					}
+				}()
+				got, err = cl.Clone(good)
+			}()
+			if err != nil {
+				return o.failf("%s: right after copies that (rightly) failed, Clone of an ordinary dynamic message failed: %v", c.Adapter, err)
+			}
+			if b, _ := c18Wire(got); string(b) != string(want) {
+				return o.failf("%s: right after copies that (rightly) failed, Clone of an ordinary dynamic message returned other content", c.Adapter)
+			}
+		}
 	}
 	src := c.Src.build()
 	srcBefore, _ := c18Wire(src)
